@@ -41,6 +41,11 @@ def generate(rng: random.Random, tier: str):
         cases.append({'kind': 'cg', 'n': n, 'sys': rng.choice(['scaled_identity', 'lowrank', 'generic', 'generic']),
                       'start': rng.choice(['none', 'zero', 'exact', 'random']), 'budget': rng.randint(0, n + 3),
                       'tol': rng.choice(['0', '0', '1/10000', '5']), 'batch': rng.choice([1, 1, 1, 2, 3]), 'seed': rng.randrange(1 << 30)})
+    # budgets far beyond n with tolerance 0: the float run goes on after convergence until the residual underflows
+    for _ in range(40 if thorough else 10):
+        n = rng.randint(2, nmax)
+        cases.append({'kind': 'cg', 'n': n, 'sys': rng.choice(['lowrank', 'generic', 'generic']), 'start': rng.choice(['none', 'zero', 'random']),
+                      'budget': rng.choice([150, 400]), 'tol': '0', 'batch': rng.choice([1, 1, 2]), 'seed': rng.randrange(1 << 30)})
     return cases
 
 
@@ -97,7 +102,9 @@ def run(case, drv) -> Outcome:
         scale = max(1.0, float(bb.abs().max()))
         return bool(torch.isfinite(a).all()) and float((a.reshape(-1).to(torch.complex128) - bb.reshape(-1)).abs().max()) <= tol_ * scale
 
-    exactish = case['sys'] == 'scaled_identity' and batch == 1  # one step, exact in floats; block-diagonal mixes scales
+    # one step, exact in floats when the scale is a power of two (alpha = 1/c is then exact; for c = 3 the float residual after
+    # the step may be 1e-16 instead of 0 and cg legitimately goes on); block-diagonal batches mix scales
+    exactish = case['sys'] == 'scaled_identity' and batch == 1 and float(Hbatch[0, 0, 0].real) in (1.0, 2.0, 4.0)
     if m['status'] != 'ok':
         corr = f'model reports a division by zero in iteration {m["k"]} for {case}'
     else:
@@ -140,7 +147,7 @@ def run(case, drv) -> Outcome:
             L = torch.linalg.cholesky(Hd)
             basis = []
             v = r0
-            for k in range(1, len(iterates)):
+            for k in range(1, min(len(iterates), N + 2)):
                 basis.append(v)
                 v = Hd @ v
                 Kk = torch.stack(basis, dim=1)
